@@ -150,8 +150,9 @@ def main(argv):
             case, evals = core.shrink(mod, r["case"], v["invariant"], budget_s=float(os.environ.get("VERIF_SHRINK_S", 60)))
             res = core.run_one(mod, case)
             vv = next((x for x in res["violations"] if x["invariant"] == v["invariant"]), v)
-            os.makedirs(os.path.join(HERE, "replays"), exist_ok=True)
-            path = os.path.join(HERE, "replays", f"{pid}-{verif_seed}-{r['i']}-{v['invariant']}.json")
+            rdir = os.environ.get("VERIF_REPLAY_DIR") or os.path.join(HERE, "replays")
+            os.makedirs(rdir, exist_ok=True)
+            path = os.path.join(rdir, f"{pid}-{verif_seed}-{r['i']}-{v['invariant']}.json")
             with open(path, "w") as fh:
                 json.dump(
                     {
